@@ -318,12 +318,50 @@ pub fn make_case(lines: &[String], path_s: &str, faults: usize) -> Case {
         "impl": {"has_error": has_error, "all": list_rep(&all_r), "first": opt_rep(&first_r), "into_all": list_rep(&into_all_r), "into_first": opt_rep(&into_first_r),
                  "display": displays.iter().map(|(a, b)| json!([a, b])).collect::<Vec<_>>()}});
     Case {
-        verdict: format!("c18_verdict {} {} {} {}", tree_coq, coq_str(path_s), coq_str(&src), obs),
-        detail: format!("c18_detail {} {} {} {} {}", coq_bool(has_error), tree_coq, coq_str(path_s), coq_str(&src), pos_coq),
+        verdict: format!("c18_verdict {} {} {} {} {}", wording_term(), tree_coq, coq_str(path_s), coq_str(&src), obs),
+        detail: format!("c18_detail {} {} {} {} {} {}", wording_term(), coq_bool(has_error), tree_coq, coq_str(path_s), coq_str(&src), pos_coq),
         key: fnv(&src),
         nontrivial: all_r.len() >= 2 || nested,
         tags, replay,
     }
+}
+
+/// The wording of the two kinds of error is not constrained by the property: it is read off the implementation once
+/// (plain display of a zero-width MISSING node = "path:r:c: <missing wording>\n", of a non-empty ERROR node =
+/// "path:r:c: <unexpected wording>: <first line of the node>") and handed to the model.  If the format cannot be
+/// recognised the wording of the pinned commit is used (and a reworded message then shows as code 5/6).
+fn calibrate_wording() -> (String, String) {
+    let mut missing: Option<String> = None;
+    let mut unexpected: Option<String> = None;
+    let path = Path::new("cal.py");
+    for src in ["f(1\n", "x = )\n", "def g(:\n    pass\n", "y = [1, 2\n", "z = 1 +\n", "a = $\n", "if x\n    pass\n"] {
+        let tree = parse_python(src);
+        let got = catch_unwind(AssertUnwindSafe(|| {
+            let mut out: Vec<(bool, String, String)> = Vec::new();
+            for e in ParseError::all(&tree) {
+                let n = *e.node();
+                let cite = format!("{}:{}:{}: ", path.display(), n.start_position().row + 1, n.start_position().column + 1);
+                let text = format!("{}", e.display(path, src));
+                let Some(rest) = text.strip_prefix(&cite) else { continue };
+                if n.start_byte() == n.end_byte() {
+                    if let Some(w) = rest.strip_suffix('\n') { out.push((matches!(e, ParseError::Missing(_)), w.to_string(), String::new())); }
+                } else {
+                    let first_line = src[n.start_byte()..n.end_byte()].split('\n').next().unwrap_or("");
+                    if let Some(w) = rest.strip_suffix(&format!(": {}", first_line)) { out.push((matches!(e, ParseError::Missing(_)), w.to_string(), first_line.to_string())); }
+                }
+            }
+            out
+        })).unwrap_or_default();
+        for (is_missing, w, _) in got {
+            if w.is_empty() || w.contains('\n') { continue; }
+            if is_missing { missing.get_or_insert(w); } else { unexpected.get_or_insert(w); }
+        }
+    }
+    (missing.unwrap_or_else(|| "missing syntax".into()), unexpected.unwrap_or_else(|| "unexpected syntax".into()))
+}
+fn wording_term() -> String {
+    static W: std::sync::OnceLock<String> = std::sync::OnceLock::new();
+    W.get_or_init(|| { let (m, u) = calibrate_wording(); format!("(kt_of {} {})", coq_str(&m), coq_str(&u)) }).clone()
 }
 
 const PATHS: &[&str] = &["test.py", "src/módulo.py", "a b/c.py"];
